@@ -160,6 +160,15 @@ theorem lanczos_ok {vstart : List α} {numiter : Nat} {alpha beta : List ρ} {V 
     simp only [bind, Except.bind, pure, Except.pure, Except.ok.injEq, Prod.mk.injEq] at h
     exact ⟨st, rfl, h.1.symm, h.2.1.symm, h.2.2.symm⟩
 
+/-- sizes of the outputs of `lanczos` -/
+theorem lanczos_sizes {vstart : List α} {numiter : Nat} {alpha beta : List ρ} {V : Mat α}
+    (h : lanczos Afun dnorm vstart numiter = .ok (alpha, beta, V)) :
+    1 ≤ alpha.length ∧ alpha.length ≤ numiter ∧ beta.length = alpha.length - 1 ∧
+      V.m = vstart.length ∧ V.n = alpha.length := by
+  obtain ⟨st, hc, rfl, rfl, rfl⟩ := lanczos_ok Afun dnorm h
+  obtain ⟨k, h1, h2, ha, hb, hv⟩ := lanczosCore_sized Afun dnorm hc
+  exact ⟨by omega, by omega, by omega, rfl, by simp [colsMat, hv, ha]⟩
+
 theorem lanczos_isOk {vstart : List α} {numiter : Nat} (h0 : 0 < dnorm vstart) (hm : 1 ≤ numiter) :
     ∃ r, lanczos Afun dnorm vstart numiter = .ok r := by
   obtain ⟨st, hst⟩ := lanczosCore_isOk Afun dnorm h0 hm
